@@ -21,6 +21,13 @@ lean/LdarModel/Generated/Wiring.lean (regenerated on every run).
                             one `__reduce__` read it into
   creationLifecycleReads    life-cycle attributes read or written in `Source._create_emission` and the Source
                             methods it calls (generation must not look at life-cycle state)
+  sitesListMutations        every statement in programs/*, scheduling/* and simulate() that mutates in place a
+                            list of sites it did not create: a parameter named `sites` (never rebound in the
+                            function) or an attribute `._sites` — `.remove/.pop/.clear/.append/.extend/.insert/
+                            .sort/.reverse`, `del x[...]`, `x[...] = ...`, `x += ...`.  simulate() hands
+                            `infra._sites`, the site list of the program's own infrastructure, to Program, which
+                            hands the same object to every Method and schedule: pruning it removes the site's
+                            emissions from what the program faces
 Fails loudly (RuntimeError -> exit 2) when a function it expects is missing.
 """
 import ast
@@ -211,9 +218,62 @@ def _reduce_info(name, classes):
     return names, mis
 
 
+MUTATORS = ("remove", "pop", "clear", "append", "extend", "insert", "sort", "reverse")
+
+
+def _is_sites_ref(node, params):
+    if isinstance(node, ast.Name) and node.id == "sites" and "sites" in params:
+        return True
+    return isinstance(node, ast.Attribute) and node.attr == "_sites"
+
+
+def _sites_mutations(src):
+    out = []
+    files = []
+    for sub in ("programs", "scheduling"):
+        d = os.path.join(src, sub)
+        if not os.path.isdir(d):
+            raise RuntimeError(f"extractor: {sub}/ not found")
+        files += [os.path.join(d, f) for f in sorted(os.listdir(d)) if f.endswith(".py")]
+    files.append(os.path.join(src, "simulation", "simulation_helpers.py"))
+    n_funcs_with_sites = 0
+    for path in files:
+        tree = ast.parse(open(path).read())
+        rel = os.path.relpath(path, src)
+        for fn in [n for n in ast.walk(tree) if isinstance(n, (ast.FunctionDef, ast.AsyncFunctionDef))]:
+            params = {a.arg for a in fn.args.args + fn.args.kwonlyargs}
+            if "sites" in params:
+                n_funcs_with_sites += 1
+                # a parameter that the function rebinds (`sites = list(sites)`) is its own list from then on;
+                # conservatively such a function is still reported if it mutates before/after — keep it simple:
+                rebound = any(isinstance(n, ast.Assign) and any(isinstance(t, ast.Name) and t.id == "sites" for t in n.targets)
+                              for n in ast.walk(fn))
+                if rebound:
+                    params = params - {"sites"}
+            for n in ast.walk(fn):
+                hit = None
+                if isinstance(n, ast.Call) and isinstance(n.func, ast.Attribute) and n.func.attr in MUTATORS \
+                        and _is_sites_ref(n.func.value, params):
+                    hit = f".{n.func.attr}()"
+                elif isinstance(n, ast.Delete) and any(isinstance(t, ast.Subscript) and _is_sites_ref(t.value, params)
+                                                       for t in n.targets):
+                    hit = "del [...]"
+                elif isinstance(n, ast.Assign) and any(isinstance(t, ast.Subscript) and _is_sites_ref(t.value, params)
+                                                       for t in n.targets):
+                    hit = "[...] ="
+                elif isinstance(n, ast.AugAssign) and _is_sites_ref(n.target, params):
+                    hit = "augmented assignment"
+                if hit:
+                    out.append(f"{rel}:{fn.name}:{n.lineno}:{hit}")
+    if n_funcs_with_sites < 3:
+        raise RuntimeError("extractor: functions taking a `sites` parameter not found in programs/ scheduling/")
+    return sorted(set(out))
+
+
 def extract():
     src = shim.REPO_SRC
     facts = {}
+    facts["sitesListMutations"] = _sites_mutations(src)
     # --- simulate() ---------------------------------------------------------------------------
     tree = ast.parse(open(os.path.join(src, "simulation", "simulation_helpers.py")).read())
     f = _func(tree, "simulate")
@@ -325,6 +385,7 @@ def write(facts):
     for k in ("simulateDeepCopies", "simulateUsesOnlyCopy", "scenarioLoadedOncePerSim", "generationIgnoresLifecycle"):
         body.append(f"def {k} : Bool := {'true' if facts[k] else 'false'}")
     body.append(f"def customCopyHooks : List String := {_lean_strs(facts['customCopyHooks'])}")
+    body.append(f"def sitesListMutations : List String := {_lean_strs(facts['sitesListMutations'])}")
     body.append(f"def creationLifecycleReads : List String := {_lean_strs(facts['creationLifecycleReads'])}")
     body.append(f"def creationHelpersScanned : List String := {_lean_strs(facts['creationHelpersScanned'])}")
     for key in ("reduceArgs", "initAttrs"):
